@@ -2,7 +2,7 @@
 harness/encfix.py: the claim is about *framing* - what is handed to the primitives and what is written into the packets."""
 from vlib.h import ob
 from harness import encfix
-from harness.encfix import Cipher, Feed, S2K, inj_digest
+from harness.encfix import Cipher, Feed, S2K, inj_digest, RFC_KEY_OCTETS, RFC_BLOCK_OCTETS
 from harness.sigfix import *          # noqa (real Ed25519 keys, oracle)
 from pgpy import PGPMessage, PGPKey
 from pgpy.packet.packets import IntegrityProtectedSKEDataV1, PKESessionKeyV3, SKESessionKeyV4
@@ -88,7 +88,7 @@ def pkesk_layout(ci: int, k0: int, k1: int, k2: int) -> bool:
     post: _
     """
     alg = pick_cipher(ci)
-    n = alg.key_size // 8
+    n = RFC_KEY_OCTETS[int(alg)]               # RFC 4880 9.2 / RFC 5581, not PGPy's own table
     key = bytes([k0]) + bytes(range(1, n // 2)) + bytes([k1]) + bytes(range(n // 2 + 1, n - 1)) + bytes([k2])
     pk = PKESessionKeyV3()
     pk.pkalg = K.PubKeyAlgorithm.RSAEncryptOrSign
@@ -115,7 +115,7 @@ def skesk_layout(ci: int, k0: int, k1: int, salt: bytes, pw: str) -> bool:
     post: _
     """
     alg = pick_cipher(ci)
-    n = alg.key_size // 8
+    n = RFC_KEY_OCTETS[int(alg)]
     sk = bytes([k0]) + bytes(range(1, n - 1)) + bytes([k1])
     p = SKESessionKeyV4()
     p.s2k.usage = 255
@@ -273,6 +273,29 @@ def composition(kind: int, ci: int, body: bytes, fsel: int, signed: bool, pw: st
     return ok
 
 
+@ob('O3.6', 'several recipients mixing a passphrase and a public key, in either order of encryption: each of them alone decrypts to the original body',
+    'order in {passphrase then key, key then passphrase}; decrypting party in {passphrase, private key}; body of 0..2 symbolic octets', cond_timeout={'q': 280, 't': 900}, flags=('lazyhex',))
+def mixed_recipients(key_first: bool, by_key: bool, body: bytes) -> bool:
+    """
+    pre: len(body) <= 2
+    post: _
+    """
+    msg = PGPMessage.new(bytes(body), compression=K.CompressionAlgorithm.Uncompressed, file=False, format='b')
+    Cipher.reset()
+    Feed.reset([])
+    PK.blocks = []
+    sk = b'K' * 16
+    if key_first:
+        enc = ENCPUB.encrypt(msg, cipher=K.SymmetricKeyAlgorithm.AES128, sessionkey=sk)
+        enc = enc.encrypt('pw', sessionkey=sk, cipher=K.SymmetricKeyAlgorithm.AES128)
+    else:
+        enc = msg.encrypt('pw', sessionkey=sk, cipher=K.SymmetricKeyAlgorithm.AES128)
+        enc = ENCPUB.encrypt(enc, cipher=K.SymmetricKeyAlgorithm.AES128, sessionkey=sk)
+    rx = PGPMessage.from_blob(enc.__bytes__())
+    dec = ENCKEY.decrypt(rx) if by_key else rx.decrypt('pw')
+    return bytes(dec.message) == bytes(body)
+
+
 SANITY = ['pkesk_layout(0, 1, 2, 3)', 'pkesk_layout(5, 255, 255, 255)', 'pkesk_layout(8, 0, 0, 0)', 'skesk_layout(1, 1, 2, b"saltsalt", "p")', 'skesk_layout(5, 0, 255, bytes(8), "")',
           'seipd_layout(8, bytes(range(8)), b"abc", 7)', 'seipd_layout(16, bytes(range(16)), b"", 0)', 'ecdh_params(0, 0, 0, 1, 2)', 'ecdh_params(3, 2, 2, 0, 3)', 'ecdh_params(1, 1, 1, 2, 1)',
-          'composition(0, 0, b"hi", 0, False, "p")', 'composition(0, 2, b"", 1, True, "")', 'composition(1, 1, b"abc", 2, True, "")', 'composition(1, 0, b"x", 0, False, "")']
+          'mixed_recipients(True, True, b"a")', 'mixed_recipients(True, False, b"a")', 'mixed_recipients(False, True, b"ab")', 'mixed_recipients(False, False, b"")', 'composition(0, 0, b"hi", 0, False, "p")', 'composition(0, 2, b"", 1, True, "")', 'composition(1, 1, b"abc", 2, True, "")', 'composition(1, 0, b"x", 0, False, "")']
